@@ -75,7 +75,10 @@ Peerstore ==
   /\ Is("Peerstore")
   /\ Step([s EXCEPT !.viol = @
        \cup Flag(\A x \in Range(Ev.learned) : x.net = "wan" => Range(x.stored) \subseteq (Range(x.offered) \cap Public), "f_wan_stored_non_public_address")
-       \cup Flag(\A x \in Range(Ev.learned) : x.net = "lan" => Range(x.stored) \subseteq (Range(x.offered) \ {"loopback"}), "g_lan_stored_loopback_address")])
+       \cup Flag(\A x \in Range(Ev.learned) : x.net = "lan" => Range(x.stored) \subseteq (Range(x.offered) \ {"loopback"}), "g_lan_stored_loopback_address")
+       \* the peer searched for is exempt from the referral filter only: its addresses are filtered like all others
+       \cup Flag(Range(Ev.tstored) \subseteq (Range(Ev.tknown) \cup (Range(Ev.twan) \cap Public) \cup (Range(Ev.tlan) \ {"loopback"})),
+                 "f_unfiltered_address_of_the_searched_peer_stored")])
 
 Other == Is("End") /\ Step(s)
 Stuck == Is("Stuck") /\ Step([s EXCEPT !.viol = @ \cup {<<"C15", "x_wedged">>}])
